@@ -20,18 +20,19 @@ RULE = ("For each generated backtest (W2 grammar: every scheduling/selection/sta
         "strategy API hands them to user code) placed first and last in every stack. Distinct = W2 signature; non-trivial = >=1 trade before the cut.")
 ASSUMPTIONS = ["lags >= 0 only (a negative lag is a request for look-ahead)", "period schedulers may look at the DATES of neighbouring rows; only values are perturbed"]
 
-WINDOWED = ["SelectHasData", "SelectMomentum", "SetStat", "WeighInvVol", "WeighERC", "WeighMeanVar", "TargetVol", "PTE_Rebalance", "WeighTarget", "SelectWhere"]
+WINDOWED = ["SelectHasData", "SelectMomentum", "SetStat", "WeighInvVol", "WeighERC", "WeighMeanVar", "TargetVol", "PTE_Rebalance", "WeighTarget", "SelectWhere",
+            "UpdateRisk", "HedgeRisks"]
 
 
 def plan(tier):
     q = tier == "quick"
-    return [dict(unit="w2", n=260 if q else 6000, builds=["py"] if q else ["py", "so"], case_timeout=300, params={"cuts": 2 if q else 5})]
+    return [dict(unit="w2", n=260 if q else 6000, builds=["py"] if q else ["py", "so"], case_timeout=300, params={"cuts": 3 if q else 6})]
 
 
 def floors(tier):
     c = {"cuts_compared": 400, "spy_records_compared": 5000, "frames_compared": 2000}
     for a in WINDOWED:
-        c["algo_" + a] = 8 if a in ("PTE_Rebalance",) else 20
+        c["algo_" + a] = 8 if a in ("PTE_Rebalance", "UpdateRisk", "HedgeRisks") else 20
     return {"min_decided": 150, "counters": c, "max_undecided_frac": 0.3}
 
 
@@ -79,7 +80,9 @@ class Spy(bt.Algo):
         return True
 
 
-def perturb(df, t, rs, boolish):
+def perturb(df, t, rs, boolish, kind="scale"):
+    if isinstance(df, dict):
+        return {k: perturb(v, t, rs, boolish, kind) for k, v in df.items()}
     df = df.copy()
     mask = np.asarray(df.index > t)
     if mask.sum() == 0:
@@ -89,7 +92,12 @@ def perturb(df, t, rs, boolish):
         df.loc[mask] = blk
         return df
     blk = df.loc[mask].to_numpy(dtype=float)
-    blk = blk * np.exp(rs.randn(*blk.shape) * 0.1)
+    if kind == "redraw":
+        # statistics / unit risks / target weights dated after the cut are replaced outright (same NaN pattern, same row scale)
+        new = rs.randn(*blk.shape) if (blk < 0).any() else rs.dirichlet(np.ones(blk.shape[1]), size=blk.shape[0]) * np.nansum(blk, axis=1, keepdims=True)
+        blk = np.where(np.isnan(blk), np.nan, new)
+    else:
+        blk = blk * np.exp(rs.randn(*blk.shape) * 0.1)
     df.loc[mask] = blk
     return df
 
@@ -97,7 +105,7 @@ def perturb(df, t, rs, boolish):
 def run_case(unit, cs, idx, build, params):
     ins.install()
     ins.reset()
-    spec = w2.gen(cs)
+    spec = w2.gen(cs, risk=0.15)
     sig = w2.signature(spec)
     sample = w2.sample_of(spec)
     ctx0 = ObsCtx()
@@ -126,7 +134,8 @@ def run_case(unit, cs, idx, build, params):
         pdata = perturb(data0, t, rs, False)
         pex = {}
         for name, fr in extras0.items():
-            pex[name] = perturb(fr, t, rs, bool(spec["extras"][name].get("bool")))
+            kind = "redraw" if (name.endswith(("stat", "tw")) or name == "unit_risk") else "scale"
+            pex[name] = perturb(fr, t, rs, bool(spec["extras"][name].get("bool")), kind)
         ins.reset()
         ctx1 = ObsCtx()
         alt = w2.run(spec, data=pdata, extras=pex, **ctx1.run_kwargs())
